@@ -1477,3 +1477,37 @@ func SpecSegRight(seg *memorySegment) int64 { panic("abstract spec function") }
 //@   ensures a_foreign_history_gets_no_position: len(ids) > 0 && (forall j int :: 0 <= j && j < len(ids) ==> ids[j] != mc.runId) ==> result0.RunId == "?" && result0.Offset == 0 - 1
 //@   loop 1:
 //@     invariant none_matched_so_far: 0 - 1 <= rangeindex && rangeindex < len(ids) && runID == mc.runId && (forall j int :: 0 <= j && j <= rangeindex ==> !(ids[j] == runID && runID != "" && ids[j] != "" && ids[j] != "?"))
+
+// ---- the position kept in memory by the frontier modes is the CONTIGUOUS frontier (C14) ----------
+// In pipeline / parallel mode a restart inside the process (cached-miss fast path of bisyncStartPoint)
+// resumes from ro.bisyncSeq / ro.bisyncOffset. Lanes acknowledge out of order, so what is stored there
+// after an acknowledgement is the coordinator's frontier - the end of the contiguous committed prefix -
+// never the sequence number / end offset of the unit that happened to be acknowledged.
+//   nPosStores  stores into the two in-memory position cells during this call (the sequence number first)
+//@ func RedisOutput.sendBisyncParallel$handleResult
+//@   arith int
+//@   properties C14
+//@   ghost var nPosStores mathint = 0
+//@   requires nonnil: ro != nil && fcWF(coordinator) && (result.err == nil ==> result.record != nil && result.unit != nil)
+//@   modifies heap, nPosStores, savedFrontierSeq, savedFrontierOk, bLen, bFirst, bLast, bCpPuts, bCp, bCpPos, tCpHigh, cpArmed
+//@   assert at call Store: the_position_kept_in_memory_is_the_contiguous_frontier: (nPosStores == 0 ==> val == coordinator.frontier.UnitSeq) && (nPosStores == 1 ==> val == coordinator.frontier.Offset) && nPosStores < 2
+//@   set nPosStores = nPosStores + 1 after call Store
+
+//@ func RedisOutput.receiveBisyncPipeline
+//@   arith int
+//@   properties C14
+//@   ghost var nPosStores mathint = 0
+//@   requires nonnil: ro != nil && replayWait != nil && fcWF(coordinator)
+//@   chan inflight: wellformed: recv.record != nil && recv.unit != nil && recv.batcher != nil
+//@   modifies heap, nPosStores, savedFrontierSeq, savedFrontierOk, bLen, bFirst, bLast, bCpPuts, bCp, bCpPos, tCpHigh, cpArmed
+//@   set nPosStores = 0 after recv inflight
+//@   assert at call Store: the_position_kept_in_memory_is_the_contiguous_frontier: (nPosStores == 0 ==> val == coordinator.frontier.UnitSeq) && (nPosStores == 1 ==> val == coordinator.frontier.Offset) && nPosStores < 2
+//@   set nPosStores = nPosStores + 1 after call Store
+//@   loop 1:
+//@     invariant coordinator_kept: fcWF(coordinator) && ro != nil && replayWait != nil
+//@ func RedisOutput.validateBisyncExecReplies(self, replies, queued) (err)
+//@   trusted frame: inspects the replies of one EXEC
+//@   modifies nothing
+//@ func RedisOutput.observeCommittedUnit(self, unit)
+//@   trusted frame: gauges
+//@   modifies nothing
